@@ -526,8 +526,9 @@ def corpus_cases():
 
 
 def run_corpus(run, drv, R, stats, findings):
-    """Witnesses of the open known findings: each must still fail on the real code (else it is reported
-    as no longer reproducing — not a violation)."""
+    """Witnesses of the known findings.  Open finding: the witness must still fail (else a NOTE, not a
+    violation).  Fixed finding (known_findings.d/C09.json "fixed"): the witness is a regression case — a
+    difference between original and optimized is a VIOLATION again."""
     import onnx
 
     for c in corpus_cases():
@@ -551,9 +552,11 @@ def run_corpus(run, drv, R, stats, findings):
                 stats["known_" + fid] += 1
             else:
                 run.violation({"corpus": c, "detail": desc}, f"corpus witness of {fid} fails but {fid} is not an open finding: {desc}")
-        else:
+        elif fid in findings:
             stats["corpus_no_longer_reproduces_" + fid] += 1
-            print(f"NOTE property=C09 witness of {fid} no longer reproduces ({c['what']})", flush=True)
+            print(f"NOTE property=C09 witness of open finding {fid} no longer reproduces ({c['what']})", flush=True)
+        else:
+            stats["corpus_regression_ok_" + fid] += 1  # witness of a fixed finding: original == optimized again
 
 
 # --------------------------------------------------------------------------- main
